@@ -368,7 +368,10 @@ pub mod verif_hooks {
         }
         /// Adds a tablet whose only replica is node `replica_id` (known or not).
         pub fn add_on(&mut self, first: i64, last: i64, replica_id: u128, resolved: bool) {
-            vt::table_add(&mut self.0, vt::make_tablet_on(first, last, replica_id, resolved))
+            vt::table_add(
+                &mut self.0,
+                vt::make_tablet_on(first, last, replica_id, resolved),
+            )
         }
         pub fn maintain(&mut self, removed: &[u128], known: &[u128], recreated: &[u128]) {
             vt::table_maintain(&mut self.0, removed, known, recreated)
@@ -378,6 +381,21 @@ pub mod verif_hooks {
         }
         pub fn first_replica_ptr(&self, i: usize) -> Option<usize> {
             vt::tablet_first_replica_ptr(&self.0, i)
+        }
+        /// Adds a tablet with one replica per given node id, all in one datacenter.
+        pub fn add_on_many(&mut self, first: i64, last: i64, replica_ids: &[u128], resolved: bool) {
+            vt::table_add(
+                &mut self.0,
+                vt::make_tablet_on_many(first, last, replica_ids, resolved),
+            )
+        }
+        /// `(host id, object address)` per replica: the full list and the per-datacenter lists.
+        #[allow(clippy::type_complexity)]
+        pub fn replica_lists(
+            &self,
+            i: usize,
+        ) -> (Vec<(u128, usize)>, Vec<(String, Vec<(u128, usize)>)>) {
+            vt::tablet_replica_lists(&self.0, i)
         }
     }
 
@@ -392,7 +410,11 @@ pub mod verif_hooks {
         above: &[usize],
         rf: usize,
     ) -> Option<usize> {
-        crate::routing::locator::verif_precomputed_replicas::ring_for_rf(compressed_max_rf, above, rf)
+        crate::routing::locator::verif_precomputed_replicas::ring_for_rf(
+            compressed_max_rf,
+            above,
+            rf,
+        )
     }
 
     /// All tables' tablets (`TabletsInfo`); tablets carry unresolved replicas iff `unresolved`.
